@@ -210,6 +210,11 @@ func baseHistories() []history {
 		{Name: "strip-then-revert", Contents: []content{A, B, C}, Steps: []step{ed(0), ed(1), ed(2), {Op: "strip", NoReconcile: true}, ed(0), ed(2)}},
 		{Name: "restore-ab", Contents: []content{A, B}, Steps: []step{ed(0), ed(1), restore, ed(0)}},
 		{Name: "restore-abc", Contents: []content{A, Abeta, C}, Steps: []step{ed(0), ed(1), ed(2), restore, ed(1), ed(2)}},
+		// older revisions lose their hash label; the Composition then moves to new contents and back
+		// to contents whose revisions still carry the label (a revert to a content whose revision has
+		// lost the label cannot succeed on the unchanged tree - the name is taken - and is not asked for)
+		{Name: "unlabel-old-then-edit", Contents: []content{A, B, C, D}, Steps: []step{ed(0), ed(1), {Op: "unlabel-old"}, ed(2), ed(3), ed(2)}},
+		{Name: "unlabel-old-revert", Contents: []content{A, B, C, D}, Steps: []step{ed(0), ed(1), ed(2), {Op: "unlabel-old", NoReconcile: true}, ed(3), ed(2), ed(3)}},
 		{Name: "foreign-mid", Contents: []content{A, B, C}, Steps: []step{ed(0), ed(1), fadd, ed(2), frm, ed(0)}},
 		{Name: "foreign-first", Contents: []content{A, B}, Steps: []step{{Op: "foreign-add", NoReconcile: true}, ed(0), frm, ed(1), ed(0)}},
 		{Name: "foreign-stays", Contents: []content{A, Abeta}, Steps: []step{ed(0), ed(1), ed(0), fadd, ed(1)}},
